@@ -527,3 +527,20 @@ Proof. vm_compute. reflexivity. Qed.
 
 Example ex_vflag_hyps : wf_pph hdr6 /\ flags_no_v hdr6 /\ wf_pph hdr0 /\ flags_no_v hdr0.
 Proof. repeat split; cbv; reflexivity. Qed.
+
+(* the class of the open finding C19-3 is decidable *)
+Lemma Known_C19_3_dec : forall f nh, known_c19_3b f nh = true <-> Known_C19_3 f nh.
+Proof.
+  intros f nh. unfold known_c19_3b, Known_C19_3. split.
+  - intro H. apply andb_true_iff in H. destruct H as [Hf Hn]. apply N.eqb_eq in Hf.
+    split; [exact Hf|]. destruct nh as [b|]; [|discriminate]. exists b. split; [reflexivity|].
+    apply orb_true_iff in Hn. destruct Hn as [Hn|Hn]; apply Nat.eqb_eq in Hn; [left|right]; exact Hn.
+  - intros [Hf (b & Hb & Hl)]. subst. rewrite N.eqb_refl. cbn [andb].
+    destruct Hl as [->| ->]; reflexivity.
+Qed.
+
+Example ex_known_c19_3 : Known_C19_3 65537 (Some (repeat 0 16)) /\ ~ Known_C19_3 65537 (Some [10;0;0;1]).
+Proof.
+  split; [apply Known_C19_3_dec; reflexivity|].
+  intro H. apply Known_C19_3_dec in H. discriminate.
+Qed.
